@@ -202,4 +202,23 @@ def Prog.image (flag : Bool) (P : Prog) : Option (Option Word × List Word) :=
       fun ws => (P.origs.head?, ws)
   else none
 
+/-! ### `.break` (C11): a breakpoint declared in the source marks the next statement -/
+
+/-- One entry per `.break` item: the number of image words the items in front of it produce — the
+index (relative to the origin) of the first word of the next statement; `k` = words so far.
+`.orig` and `.break` produce no word, `.blkw n` produces `n`, `.stringz` one per character and a
+final zero; a `.break` behind the last statement gets the total number of words. -/
+def breakIdx : List Item → Nat → List Nat
+  | [], _ => []
+  | .brk :: rest, k => k :: breakIdx rest k
+  | .orig _ :: rest, k => breakIdx rest k
+  | .stmt _ s :: rest, k => breakIdx rest (k + s.size)
+
+/-- **The breakpoints a program declares**: the word indices marked by its `.break` items, in
+increasing order, each once (several `.break`s in front of the same statement are one breakpoint).
+A `.break` item carries no label: `Item.brk` has no label field, a label belongs to a statement
+(`.break` / `lbl add …` is `[.brk, .stmt (some lbl) …]`; the text `lbl .break` is not in the range
+of `render`). -/
+def Prog.breaks (P : Prog) : List Nat := (breakIdx P.items 0).eraseDups
+
 end Lace.Spec
